@@ -57,7 +57,12 @@ import (
 
 func TestVerif(t *testing.T) {
 	drv.Main(t,
-		drv.Wrap(drv.Engine[c14Case]{Property: "C14", Name: "c14", Gen: genC14, Run: runC14, BatchChecks: 100, GCEvery: 16}),
+		// the registered engine: all three transports, every case in a bubble under the
+		// seeded scheduler
+		drv.Wrap(drv.Engine[c14Case]{Property: "C14", Name: "c14", Gen: genC14, Run: runC14, BatchChecks: 100, GCEvery: 8}),
+		// the same engine restricted to one transport (for focused runs; not in the unit's
+		// default engine list)
+		drv.Wrap(drv.Engine[c14Case]{Property: "C14", Name: "c14-mock", Gen: func(t *rapid.T) c14Case { return genC14For(t, "mock") }, Run: runC14, BatchChecks: 100, GCEvery: 16}),
 		drv.Wrap(drv.Engine[c14Case]{Property: "C14", Name: "c14-ws", Gen: func(t *rapid.T) c14Case { return genC14For(t, "ws") }, Run: runC14, BatchChecks: 50, GCEvery: 8}),
 		drv.Wrap(drv.Engine[c14Case]{Property: "C14", Name: "c14-grpc", Gen: func(t *rapid.T) c14Case { return genC14For(t, "grpc") }, Run: runC14, BatchChecks: 50, GCEvery: 8}),
 	)
@@ -197,7 +202,9 @@ func genC14Scripts(t *rapid.T, c *c14Case) {
 	}
 }
 
-func genC14(t *rapid.T) c14Case { return genC14For(t, "mock") }
+func genC14(t *rapid.T) c14Case {
+	return genC14For(t, rapid.SampledFrom([]string{"mock", "mock", "mock", "mock", "grpc", "grpc", "grpc", "ws", "ws", "ws"}).Draw(t, "transport"))
+}
 
 func genC14For(t *rapid.T, transport string) c14Case {
 	c := c14Case{Transport: transport, Seed: rapid.Uint32().Draw(t, "seed"), Strategy: rapid.IntRange(0, 2).Draw(t, "strategy")}
